@@ -19,6 +19,8 @@ use crate::source::{make_sync, new_log};
 // the type family
 
 thread_local! {
+    /// panic of the extra run with a small event buffer limit (overlapped-lists build)
+    static LIMITED_PANIC: std::cell::RefCell<Option<PanicInfo>> = std::cell::RefCell::new(None);
     static ELEMS: std::cell::Cell<u64> = std::cell::Cell::new(0);
     static ELEM_BUDGET: std::cell::Cell<u64> = std::cell::Cell::new(u64::MAX);
 }
@@ -68,6 +70,12 @@ pub struct T0 {
     name: String,
     #[serde(default)]
     item: Vec<B<Item>>,
+    #[serde(default, skip_serializing_if = "Option::is_none")]
+    nt: Option<Newtype>,
+    #[serde(default, skip_serializing_if = "Vec::is_empty")]
+    units: Vec<B<()>>,
+    #[serde(default, skip_serializing)]
+    any: Vec<B<Ign>>,
     #[serde(rename = "$text", default, skip_serializing_if = "Option::is_none")]
     text: Option<String>,
 }
@@ -80,6 +88,7 @@ pub enum Choice {
         x: i32,
     },
     C,
+    Tp(String, String),
     #[serde(rename = "$text")]
     Text(String),
 }
@@ -317,7 +326,7 @@ pub enum T30 {
     Z { #[serde(rename = "$text", default)] t: String, #[serde(default)] w: Option<Inner> },
 }
 
-#[derive(Serialize, Deserialize, PartialEq, Debug, Clone, Copy, Default)]
+#[derive(Serialize, Deserialize, PartialEq, Eq, PartialOrd, Ord, Debug, Clone, Copy, Default)]
 pub enum Kind {
     #[default]
     One,
@@ -343,6 +352,80 @@ pub struct T31 {
     big: Option<i128>,
 }
 
+/// a type that asks for bytes (deserialize_byte_buf), as serde_bytes would
+#[derive(PartialEq, Debug, Clone, Default)]
+pub struct BB(Vec<u8>);
+impl<'de> Deserialize<'de> for BB {
+    fn deserialize<D: serde::Deserializer<'de>>(d: D) -> Result<BB, D::Error> {
+        struct V;
+        impl<'de> serde::de::Visitor<'de> for V {
+            type Value = BB;
+            fn expecting(&self, f: &mut std::fmt::Formatter) -> std::fmt::Result {
+                f.write_str("bytes")
+            }
+            fn visit_bytes<E: serde::de::Error>(self, v: &[u8]) -> Result<BB, E> {
+                Ok(BB(v.to_vec()))
+            }
+            fn visit_byte_buf<E: serde::de::Error>(self, v: Vec<u8>) -> Result<BB, E> {
+                Ok(BB(v))
+            }
+            fn visit_str<E: serde::de::Error>(self, v: &str) -> Result<BB, E> {
+                Ok(BB(v.as_bytes().to_vec()))
+            }
+            fn visit_string<E: serde::de::Error>(self, v: String) -> Result<BB, E> {
+                Ok(BB(v.into_bytes()))
+            }
+        }
+        d.deserialize_byte_buf(V)
+    }
+}
+
+#[derive(Deserialize, PartialEq, Debug, Clone, Default)]
+#[serde(rename = "at")]
+pub struct T34 {
+    #[serde(rename = "@c", default)]
+    c: Option<char>,
+    #[serde(rename = "@u", default)]
+    u: Option<()>,
+    #[serde(rename = "@n", default)]
+    n: Option<Newtype>,
+    #[serde(rename = "@k", default)]
+    k: Option<Kind>,
+    #[serde(rename = "@t", default)]
+    t: Option<(u8, u8)>,
+    #[serde(rename = "@l", default)]
+    l: Vec<B<Kind>>,
+    #[serde(rename = "@b", default)]
+    b: Option<BB>,
+    #[serde(default)]
+    e: Option<BB>,
+    #[serde(default)]
+    f: Vec<B<char>>,
+    #[serde(rename = "$text", default)]
+    text: Option<Kind>,
+}
+
+#[derive(Serialize, Deserialize, PartialEq, Debug, Clone)]
+pub enum T35 {
+    #[serde(rename = "$text")]
+    Tup(u8, u8),
+    A,
+    S {
+        #[serde(rename = "@x", default)]
+        x: Option<u8>,
+    },
+    N(Kind),
+}
+
+#[derive(Deserialize, PartialEq, Debug, Clone, Default)]
+#[serde(rename = "tv")]
+pub struct T36 {
+    #[serde(rename = "$value", default)]
+    v: Vec<B<T35>>,
+    #[serde(rename = "@id", default)]
+    id: Option<BB>,
+}
+
 /// HashMap with an order-independent Debug rendering (iteration order of a
 /// randomised hash map must never reach a log, a digest or a replay file)
 #[derive(Deserialize, PartialEq, Clone, Default)]
@@ -355,7 +438,7 @@ impl std::fmt::Debug for HM {
     }
 }
 
-pub const N_TYPES: u32 = 32;
+pub const N_TYPES: u32 = 38;
 
 pub fn type_name(id: u32) -> &'static str {
     match id {
@@ -385,6 +468,12 @@ pub fn type_name(id: u32) -> &'static str {
         29 => "untagged enum T29 {A{a}|Bb{b,c*}|C(String)}",
         30 => "internally tagged enum T30 (tag=@t) {X{v}|Y|Z{$text,w?}}",
         31 => "T31 {@kind: enum, @arr: [u8;2]?, row*: Vec<Vec<String>>, k?: enum, ch?: char, big?: i128}",
+        32 => "BTreeMap<u32,String>",
+        33 => "BTreeMap<Kind(enum),bool>",
+        34 => "T34 {@c: char?, @u: ()?, @n: Newtype?, @k: enum?, @t: (u8,u8)?, @l: Vec<enum>, @b: bytes?, e: bytes?, f*: char, $text: enum?}",
+        35 => "enum T35 {$text(u8,u8)|A|S{@x?}|N(enum)}",
+        36 => "T36 {$value: Vec<T35>, @id: bytes?}",
+        37 => "Vec<()>",
         23 => "Vec<Option<u8>>",
         24 => "T24 {$value: Vec<Option<String>>}",
         25 => "T25 {item*: Option<Item>, $text?, @o: xs:list of Option<u8>}",
@@ -447,6 +536,9 @@ pub fn gen_valid_doc(rng: &mut Rng, ty: u32) -> String {
                 n: if rng.bool() { Some(rng.below(1000) as u32) } else { None },
                 name: s(rng),
                 item: (0..rng.below(4)).map(|_| B(item(rng))).collect(),
+                nt: if rng.chance(1, 3) { Some(Newtype(s(rng))) } else { None },
+                units: (0..rng.below(3)).map(|_| B(())).collect(),
+                any: vec![],
                 text: os(rng),
             },
             None,
@@ -454,10 +546,11 @@ pub fn gen_valid_doc(rng: &mut Rng, ty: u32) -> String {
         1 => ser(
             &T1 {
                 items: (0..rng.below(5))
-                    .map(|_| B(match rng.below(4) {
+                    .map(|_| B(match rng.below(5) {
                         0 => Choice::A(s(rng)),
                         1 => Choice::B { x: rng.below(100) as i32 - 50 },
                         2 => Choice::C,
+                        3 if rng.bool() => Choice::Tp(s(rng), s(rng)),
                         _ => Choice::Text(s(rng)),
                     }))
                     .collect(),
@@ -582,6 +675,16 @@ pub fn gen_valid_doc(rng: &mut Rng, ty: u32) -> String {
             rng.pick(&["", " kind=\"Two\"", " kind=\"th ree\"", " arr=\"1 2\"", " arr=\"1\"", " arr=\"1 2 3\"", " kind=\"\""]),
             rng.pick(&["", "<row>a b</row><row>c</row>", "<row/>", "<k>One</k>", "<k><Two/></k>", "<ch>x</ch>", "<ch>xy</ch>", "<ch></ch>", "<big>170141183460469231731687303715884105727</big>", "<big>-1</big><row> a  b </row>", "<row>a\tb\nc</row>"])
         )),
+        32 => Some(rng.pick(&["<m><_1>a</_1></m>", "<m><a>1</a></m>", "<m/>", "<m><n1>x</n1><n2/></m>", "<m>text</m>"]).to_string()),
+        33 => Some(rng.pick(&["<m><One>true</One><Two>0</Two></m>", "<m><Three>1</Three></m>", "<m><One/></m>", "<m>One</m>", "<m><One>x</One></m>"]).to_string()),
+        34 => Some(format!(
+            "<at{}>{}</at>",
+            rng.pick(&["", " c=\"x\"", " c=\"xy\"", " c=\"\"", " u=\"\"", " u=\"x\"", " n=\"v\"", " k=\"Two\"", " k=\"th ree\"", " k=\"Nope\"", " t=\"1 2\"", " t=\"1\"", " t=\"1 2 3\"", " l=\"One Two\"", " l=\"One  Bad\"", " b=\"bytes\"", " b=\"&lt;\" c=\"&#65;\"", " c=\"\u{e9}\" k=\"One\" l=\"\""]),
+            rng.pick(&["", "One", "Two ", "<e>data</e>", "<e/>", "<f>a</f><f>bc</f>", "<f></f>", "th ree", "<e><![CDATA[x]]>y</e>Two", "Nope"])
+        )),
+        35 => Some(rng.pick(&["1 2", "<A/>", "<S x=\"3\"/>", "<N>One</N>", "1", "1 2 3", "<N><Two/></N>", "<S>t</S>", "text", "<A>1 2</A>", ""]).to_string()),
+        36 => Some(format!("<tv{}>{}</tv>", rng.pick(&["", " id=\"x\"", " id=\"\""]), rng.pick(&["", "1 2", "<A/>3 4<S/>", "<N>Two</N>", "1 2<A/>", "<A/><A/>5", "x", "<S x=\"1\"/>1 2 3"]))),
+        37 => Some(rng.pick(&["<u/><u/>", "<u>x</u>", "", "<u/>text<u/>", "<u><a/></u>"]).to_string()),
         23 => Some(rng.pick(&["<a>1</a><a/><a>3</a>", "<![CDATA[]]>", "<a/>", "1 2 3", "<a>1</a>", "<a><![CDATA[]]></a>", "<a xsi:nil=\"true\" xmlns:xsi=\"http://www.w3.org/2001/XMLSchema-instance\"/><a>2</a>"]).to_string()),
         24 => Some(format!("<vo>{}</vo>", rng.pick(&["", "a", "<a>1</a><b/>", "<![CDATA[]]>", "t<a/>u", "<a/><![CDATA[]]><b/>", "<a><![CDATA[]]></a>"]))),
         25 => Some(format!(
@@ -816,6 +919,22 @@ fn de_both<T: DeserializeOwned + PartialEq + std::fmt::Debug>(plan: &Plan, from_
         Ok(Err(e)) => (Res3::Err(format!("{:?}", e)), None),
         Err(p) => (Res3::Panic(p), None),
     };
+    // overlapped-lists build: a third run with a small event buffer limit (TooManyEvents
+    // path, replay checkpoints); only the no-panic / budget monitors apply to it
+    #[cfg(feature = "enc")]
+    {
+        if from_str_too {
+            let text = std::str::from_utf8(&plan.doc).unwrap();
+            let limit = std::num::NonZeroUsize::new(1 + (plan.run % 4) as usize);
+            arm_budget(plan.doc.len());
+            let r = guard(|| {
+                let mut de = quick_xml::de::Deserializer::from_str(text);
+                de.event_buffer_size(limit);
+                T::deserialize(&mut de).map(|_| ())
+            });
+            LIMITED_PANIC.with(|c| *c.borrow_mut() = r.err());
+        }
+    }
     let equal = match (&a, &b) {
         // f32/f64 NaN is not equal to itself under PartialEq: identical Debug renderings
         // (HashMap is rendered sorted) count as equal values as well
@@ -856,6 +975,12 @@ fn dispatch(plan: &Plan, from_str_too: bool) -> (Option<Res3>, Res3, bool, u32) 
         29 => de_both::<T29>(plan, from_str_too),
         30 => de_both::<T30>(plan, from_str_too),
         31 => de_both::<T31>(plan, from_str_too),
+        32 => de_both::<BTreeMap<u32, String>>(plan, from_str_too),
+        33 => de_both::<BTreeMap<Kind, bool>>(plan, from_str_too),
+        34 => de_both::<T34>(plan, from_str_too),
+        35 => de_both::<T35>(plan, from_str_too),
+        36 => de_both::<T36>(plan, from_str_too),
+        37 => de_both::<Vec<B<()>>>(plan, from_str_too),
         23 => de_both::<Vec<B<Option<u8>>>>(plan, from_str_too),
         24 => de_both::<T24>(plan, from_str_too),
         25 => de_both::<T25>(plan, from_str_too),
@@ -945,8 +1070,9 @@ impl Scenario for De {
         st.add("fault.short_read_pieces", calls as u64);
         classify_cuts(&plan.doc, &plan.stream.cuts, &mut st.hits);
         st.note_schedule(crate::plan::fnv_bytes(&plan.stream.cuts.iter().flat_map(|c| c.to_le_bytes()).collect::<Vec<u8>>()) ^ crate::plan::fnv_bytes(&plan.doc) ^ calls as u64);
+        let limited = LIMITED_PANIC.with(|c| c.borrow_mut().take()).map(Res3::Panic);
         let mut str_ok = false;
-        for (which, r) in [("from_str", a.as_ref()), ("from_reader", Some(&b))] {
+        for (which, r) in [("from_str", a.as_ref()), ("from_reader", Some(&b)), ("Deserializer::from_str + event_buffer_size(1..4)", limited.as_ref())] {
             match r {
                 Some(Res3::Panic(p)) => match p.kind {
                     PanicKind::Harness | PanicKind::Exec => crate::core::harness_fail(which, p, plan),
